@@ -434,6 +434,23 @@ func Outcomes(c *core.Change) []*core.Entry {
 // JudgeC05 judges one outcome vector (index into Outcomes per transition,
 // alpha transitions first).
 func JudgeC05(in *Input, p *Plan, vector []int) (r Result) {
+	return JudgeC05With(in, p, vector, nil)
+}
+
+// PlanOutcomes precomputes Outcomes for every transition of a plan (alpha
+// transitions first).
+func PlanOutcomes(p *Plan) [][]*core.Entry {
+	var out [][]*core.Entry
+	for _, list := range [][]*core.Change{p.Alpha, p.Beta} {
+		for _, c := range list {
+			out = append(out, Outcomes(c))
+		}
+	}
+	return out
+}
+
+// JudgeC05With is JudgeC05 with precomputed outcome lists.
+func JudgeC05With(in *Input, p *Plan, vector []int, pre [][]*core.Entry) (r Result) {
 	changes := append([]*core.Change{}, p.Anc...)
 	type expect struct {
 		path string
@@ -443,7 +460,12 @@ func JudgeC05(in *Input, p *Plan, vector []int) (r Result) {
 	i := 0
 	for _, list := range [][]*core.Change{p.Alpha, p.Beta} {
 		for _, c := range list {
-			outs := Outcomes(c)
+			var outs []*core.Entry
+			if pre != nil {
+				outs = pre[i]
+			} else {
+				outs = Outcomes(c)
+			}
 			o := outs[vector[i]%len(outs)]
 			if !tree.DeepEqual(o, c.Old) && !tree.DeepEqual(o, c.New) {
 				r.NonTrivial = true
